@@ -6,12 +6,13 @@
    The bounds are then transferred to the ACTUAL IEEE computation of one pair (Flocq's operations and the SpecFloat instance), for
    binary64 (inputs 0 or of magnitude in [2^-160, 2^160]) and binary32 (inputs 0 or of magnitude in [2^-20, 2^20]): under these
    ranges every intermediate result is normal or exactly zero.  The accumulation over a source list is proved for every arithmetic
-   satisfying the standard model (remote_*_error); the mutual and in-leaf routines reduce to [remote_one] by the exact laws of
-   Properties_C20.
+   satisfying the standard model (remote_*_error) AND on the actual binary64 computation of GenericFullRemote for one target
+   (C20_sf_remote_error: up to 2^26 sources; running sums that fall into the subnormal range are exact, none overflows); the mutual
+   and in-leaf routines reduce to [remote_one] by the exact laws of Properties_C20.
    Axioms: classical reals of Coq's standard library (+ Classical_Prop.classic through Flocq). *)
 From Coq Require Import List Reals.
 From Flocq Require Import Core IEEE754.BinarySingleNaN.
-From Tbfmm Require Import Num.P2PDefs Num.P2PReal Num.P2PError Num.P2PError32.
+From Tbfmm Require Import Num.P2PDefs Num.P2PReal Num.P2PSF Num.P2PError Num.P2PError32 Num.P2PErrorSum.
 Local Open Scope R_scope.
 
 (* one pair: potential kernel within 5 u, force components within 16 u (relative) *)
@@ -129,3 +130,27 @@ Print Assumptions C20_sf32_pair_error.
 
 Example C20_b32_inputs_satisfiable : b32_inputs_ok ex32_s ex32_t.
 Proof. exact ex32_inputs_ok. Qed.
+
+(* ---- accumulation on the ACTUAL binary64 computation: one target, a list of sources (GenericFullRemote's inner loop), stated on the
+   SpecFloat instance that is executed bit for bit against the C++: all four accumulators stay finite, the potential is within
+   (n + 7) 2^-53 and each force component within (n + 17) 2^-53 of the exact sum, relative to the sum of absolute contributions ---- *)
+Theorem C20_sf_remote_error : forall (srcs : list (part (binary_float 53 1024))) (t : part (binary_float 53 1024)),
+  Forall (fun s => b64_inputs_ok s t) srcs -> (Z.of_nat (length srcs) <= 2 ^ 26)%Z ->
+  let tR := partR_of t in let sR := map partR_of srcs in let n := INR (length srcs) in
+  let r := remote_one SpecFloat.spec_float (sf_ops 53 1024) (map sf_part srcs) (sf_part t) (rhs0 _ (sf_ops 53 1024)) in
+  (is_finite_SF (f_x _ r) = true /\ is_finite_SF (f_y _ r) = true /\ is_finite_SF (f_z _ r) = true /\
+   is_finite_SF (f_p _ r) = true) /\
+  Rabs (SF2R radix2 (f_p _ r) - Rsum (map (fun s => p_v _ s / rdist s tR) sR))
+    <= ((n + 7) * bpow radix2 (-53)) * Rsum (map (fun s => Rabs (p_v _ s) / rdist s tR) sR) /\
+  Rabs (SF2R radix2 (f_x _ r) - Rsum (map (fun s => f_x _ (contrib s tR)) sR))
+    <= ((n + 17) * bpow radix2 (-53)) * Rsum (map (fun s => Rabs (f_x _ (contrib s tR))) sR) /\
+  Rabs (SF2R radix2 (f_y _ r) - Rsum (map (fun s => f_y _ (contrib s tR)) sR))
+    <= ((n + 17) * bpow radix2 (-53)) * Rsum (map (fun s => Rabs (f_y _ (contrib s tR))) sR) /\
+  Rabs (SF2R radix2 (f_z _ r) - Rsum (map (fun s => f_z _ (contrib s tR)) sR))
+    <= ((n + 17) * bpow radix2 (-53)) * Rsum (map (fun s => Rabs (f_z _ (contrib s tR))) sR).
+Proof. exact sf_remote_error. Qed.
+Print Assumptions C20_sf_remote_error.
+
+Example C20_remote_inputs_satisfiable :
+  Forall (fun s => b64_inputs_ok s ex_t) (ex_s1 :: ex_s2 :: nil) /\ (Z.of_nat (length (ex_s1 :: ex_s2 :: nil)) <= 2 ^ 26)%Z.
+Proof. exact (conj ex_inputs ex_len). Qed.
